@@ -34,11 +34,13 @@ BOUND = {
 }
 TIME_CAP = {"quick": 300, "thorough": 3000}
 
-STAT_ALPHA = {"f8": [None, "1.0", "2.0", "-1.5", "0.25"], "i8": [0, 1, 2, -3, 4611686018427387904], "b1": [False, True]}
+STAT_ALPHA = {"f8": [None, "1.0", "2.0", "-1.5", "0.25"], "i8": [0, 1, 2, -3, 4611686018427387904], "b1": [False, True], "u1": [0, 1, 200, 255]}
 GEN_ALPHA = {
     "f8": [None, "1.0", "2.0", "-inf"],
     "i8": [0, 1, 2, -3],
     "b1": [False, True],
+    "u1": [0, 200, 255],
+    "td": [None, "1", "3", "-2"],
     "str": [None, "a", "b", "ab"],
     "D": [None, "1970-01-01", "2020-02-29", "1969-12-31"],
     "us": [None, "1970-01-01T00:00:00", "2020-02-29T23:59:59.999999"],
@@ -57,7 +59,7 @@ def helper_calls(family, kind):
         for h in ("std", "var"):
             for ddof in (0, 1):
                 calls += [(h, {"ddof": ddof, "drop_na": d}) for d in DROP]
-        if kind in ("b1", "i8", "f8"):
+        if kind in ("b1", "i8", "f8", "u1"):
             calls += [("all", {}), ("any", {})]
         # order-sensitive helpers evaluated AFTER the numeric reductions in the same aggregate call:
         # a reduction that reorders the shared column in place (partial sort) is seen here
